@@ -208,8 +208,10 @@ impl<R: Round, const B: Word> FBig<R, B> {
     pub fn with_precision(self, precision: usize) -> Rounded<Self> {
         let new_context = Context::new(precision);
 
-        // shrink if necessary
-        let repr = if self.context.precision > precision {
+        // shrink if necessary (a precision of 0 means unlimited: it is larger than any other)
+        let repr = if self.context.precision > precision
+            || (self.context.precision == 0 && precision > 0)
+        {
             // it also handles unlimited precision
             new_context.repr_round(self.repr)
         } else {
